@@ -572,6 +572,44 @@ def unary_ops(module: str) -> list:
     return out
 
 
+# Non-default settings of the optional, shape-relevant attributes (by parameter name), one at a time plus
+# the axis x keepdims combination: a single-input operator is exercised at MORE than its defaults.
+ATTR_SETTINGS = {
+    "axis": [-1, 1, 0, 2, -2], "keepdims": [0], "noop_with_empty_axes": [1], "axes": [[0], [-1], [1, 2]],
+    "perm": [[0, 2, 1, 3], [1, 0], [3, 2, 1, 0]], "select_last_index": [1], "start": [1, -2], "end": [-1, 2],
+    "num_outputs": [2, 3], "p": [1], "k": [1, -1], "periodic": [0], "onesided": [1], "upper": [0], "sorted": [0],
+    "dtype": [np.float64], "output_datatype": [11], "sample_size": [3], "detect_negative": [0],
+}
+
+
+def unary_attr_settings(module: str) -> list:
+    """[(operator, kwargs)] for every single-input constructor and every non-default setting above."""
+    import inspect
+
+    mod = _any_module(module)
+    table = getattr(mod, "_CONSTRUCTORS", None) or {}
+    out = []
+    for name in unary_ops(module):
+        fn = table.get(name) or getattr(mod, name)
+        params = {p.name for p in inspect.signature(fn).parameters.values() if p.kind == p.KEYWORD_ONLY}
+        for pn in sorted(params & set(ATTR_SETTINGS)):
+            for val in ATTR_SETTINGS[pn]:
+                out.append((name, {pn: val}))
+        if {"axis", "keepdims"} <= params:
+            out.append((name, {"axis": -1, "keepdims": 0}))
+        if {"axes", "keepdims"} <= params:
+            out.append((name, {"axes": [1], "keepdims": 0}))
+    return out
+
+
+def _kw_json(kw: dict) -> dict:
+    return {k: (np.dtype(v).name if isinstance(v, type) else v) for k, v in kw.items()}
+
+
+def _kw_real(kw: dict) -> dict:
+    return {k: (np.dtype(v).type if k == "dtype" and isinstance(v, str) else v) for k, v in kw.items()}
+
+
 def unary_cases(thorough: bool, chunk: int = 12) -> list[dict]:
     cases = []
     for m in ALL_MODULES:
@@ -583,11 +621,21 @@ def unary_cases(thorough: bool, chunk: int = 12) -> list[dict]:
             cases.append({"module": m, "ops": names[i:i + chunk], "symbolic": False})
             if thorough:
                 cases.append({"module": m, "ops": names[i:i + chunk], "symbolic": True})
+        try:
+            settings = [[n, _kw_json(kw)] for n, kw in unary_attr_settings(m)]
+        except Exception:  # noqa: BLE001
+            settings = []
+        for i in range(0, len(settings), 2 * chunk):
+            cases.append({"module": m, "ops": settings[i:i + 2 * chunk], "symbolic": False, "attrs": True})
     return cases
 
 
-def _apply_unary(mod, name: str, args: dict, cands: list):
-    """First candidate input type the constructor accepts -> list of result Vars (or None)."""
+def _apply_unary(mod, name, args: dict, cands: list):
+    """First candidate input type the constructor accepts -> list of result Vars (or None).
+    `name`: operator identifier, or [identifier, {attribute settings}]."""
+    kw = {}
+    if not isinstance(name, str):
+        name, kw = name[0], _kw_real(name[1])
     table = getattr(mod, "_CONSTRUCTORS", None) or {}
     fn = table.get(name) or getattr(mod, name)
     for j, t in enumerate(cands):
@@ -595,7 +643,7 @@ def _apply_unary(mod, name: str, args: dict, cands: list):
         if key not in args:
             args.update(P.make_args({key: L.ty_from_json(t)}))
         try:
-            r = fn(args[key])
+            r = fn(args[key], **kw)
         except Exception:  # noqa: BLE001 - this candidate is not accepted
             continue
         outs = list(r) if isinstance(r, (tuple, list)) else [r]
